@@ -226,6 +226,11 @@ def run(ctx):
            note='all interleavings of submit/start/finish/fail/collect: order kept, failure is loud, return only after all collected')
     ctx.mc('CalcFiles', 'MC_CalcFiles.cfg', expect='OrderKept', overrides=dict(CollectMode='"append"'),
            note='negative control: collecting in completion order breaks file order')
+    ctx.mc('CalcHistory', 'MC_CalcHistory.cfg', require_actions=['NewCall', 'ProcessAny'], workers=8,
+           overrides=dict(MaxCalls=3 if not big else 4, MaxFiles=2 if not big else 3),
+           note='several calls on one long-lived executor, files failing part-way: every returned signature holds exactly its own file')
+    ctx.mc('CalcHistory', 'MC_CalcHistory.cfg', expect='OwnSignature', overrides=dict(FreshAccumulator='FALSE'),
+           note='negative control: a per-worker accumulator cleared only on success leaks a failed file into the next one')
     tmp = tlc.mktmp('c13-')
     try:
         nmax = 6 if big else 4
